@@ -534,6 +534,11 @@ func (db *MultiBucketBackend) deleteObjectLocked(bucketName, objectName string) 
 		return err
 	}
 
+	// Directories only exist to hold keys that contain a '/'. Remove the ones
+	// this delete has emptied, otherwise they show up as common prefixes in
+	// listings and keep the bucket from being deleted:
+	removeEmptyDirs(db.bucketFs, path.Dir(fullPath), bucketName)
+
 	if err := db.metaStore.deleteMeta(db.metaStore.metaPath(bucketName, objectName)); err != nil {
 		return err
 	}
